@@ -62,6 +62,18 @@ class C17(Check):
             for l in itertools.product(words, repeat=n):
                 for i in ["", ",", " ", ", "]:
                     yield "joinw %s %s" % (hx(i), wl(l)), "join-single-pass"
+        # elements with their own operator<<: one that calls join itself (re-entrancy), one that leaves std::hex set on the
+        # stream it is given (no state may survive from one element, call or nested call to the next)
+        cells = ["", "a", "b", "ab"]
+        rows = [list(r) for n in range(0, 3) for r in itertools.product(cells, repeat=n)]
+        for n in range(0, 3 if tier == "quick" else 4):
+            for rs in itertools.product(rows[:12] if tier == "quick" else rows, repeat=n):
+                for i, inner in [(";", ","), ("", ","), (",", ""), (", ", " ")]:
+                    yield "joinn %s %s %s" % (hx(i), hx(inner), "/".join(wl(r) for r in rs) or "."), "join-nested"
+        for n in range(0, 5):
+            for _ in range(30 if tier == "quick" else 300):
+                l = [rng.choice([0, 1, 9, 10, 11, 15, 16, 255, 256, 4096, -1, 123456789]) for _ in range(n)]
+                yield "joinh %s %s" % (hx(rng.choice(["", ",", " "])), ",".join(str(x) for x in l) or "."), "join-hex-elements"
         sw = list(strings(A, 3 if tier == "quick" else 4))
         for f in sw:
             for p in sw:
@@ -132,6 +144,10 @@ class C17(Check):
             return w[2] != "-"
         if w[0] == "replacea":
             return w[2] != "-"
+        if w[0] == "joinn":
+            return "/" in w[3]
+        if w[0] == "joinh":
+            return "," in w[2]
         if w[0] in ("join", "joini", "joinw"):
             return "," in w[2]
         return False
@@ -142,6 +158,20 @@ class C17(Check):
 
     def shrink(self, case):
         w = case.split()
+        if w[0] == "joinn":
+            rows = w[3].split("/") if w[3] != "." else []
+            for i in range(len(rows)):
+                yield " ".join(w[:3] + ["/".join(rows[:i] + rows[i+1:]) or "."])
+            for i, r in enumerate(rows):
+                el = r.split(",") if r != "." else []
+                for j in range(len(el)):
+                    yield " ".join(w[:3] + ["/".join(rows[:i] + [",".join(el[:j] + el[j+1:]) or "."] + rows[i+1:])])
+            return
+        if w[0] == "joinh":
+            el = w[2].split(",") if w[2] != "." else []
+            for i in range(len(el)):
+                yield " ".join(w[:2] + [",".join(el[:i] + el[i+1:]) or "."])
+            return
         # drop one byte from one of the hex fields / one list element
         for k in range(2 if w[0] == "replacea" else 1, len(w)):
             f = w[k]
